@@ -21,8 +21,39 @@ func Mutate(r *rand.Rand, s string) string {
 	return s
 }
 
+// Confusables: non-ASCII code points that turn into ASCII under a sloppy conversion - case
+// folding with unicode.ToLower/ToUpper (U+212A -> k, U+0130 -> i, U+017F -> S) or truncation
+// to a byte (U+0100+c has the low byte c: U+0131 -> '1', U+013A -> ':', U+0141 -> 'A', U+0661 -> 'a').
+func Confusable(r *rand.Rand, c byte) string {
+	switch {
+	case (c == 'k' || c == 'K') && r.IntN(2) == 0:
+		return "\u212a"
+	case (c == 'i' || c == 'I') && r.IntN(2) == 0:
+		return "\u0130"
+	case (c == 's' || c == 'S') && r.IntN(2) == 0:
+		return "\u017f"
+	}
+	base := []rune{0x100, 0x100, 0x200, 0x400, 0x600, 0xFF00, 0x1F600}[r.IntN(7)]
+	return string(base + rune(c))
+}
+
+// Confuse replaces 1-2 ASCII characters of s by confusables.
+func Confuse(r *rand.Rand, s string) string {
+	for k := 1 + r.IntN(2); k > 0 && len(s) > 0; k-- {
+		p := r.IntN(len(s))
+		if s[p] >= 0x80 || s[p] < 0x21 {
+			continue
+		}
+		s = s[:p] + Confusable(r, s[p]) + s[p+1:]
+	}
+	return s
+}
+
 func mutateOnce(r *rand.Rand, s string) string {
 	pos := func() int { return r.IntN(len(s) + 1) }
+	if r.IntN(12) == 0 {
+		return Confuse(r, s)
+	}
 	switch r.IntN(8) {
 	case 0, 1, 2: // insert token
 		p := pos()
